@@ -28,6 +28,22 @@ TARGETS = [
     ("src/ExpressionBuilder.cpp", [(60, 120), (620, 700), (980, 1120)], ["C16", "C01"], 10),
 ]
 
+# second campaign (MUT_SET=2): the files behind the anchors - type checker, grammar actions, scanner, statement and
+# expression builders, types, symbols, the XML reader's path / libxml2 glue, expression and document helpers
+TARGETS2 = [
+    ("src/typechecker.cpp", None, ["C16", "C01", "C06"], 30),
+    ("src/parser.y", [(330, 2150)], ["C05", "C01", "C06"], 18),
+    ("src/lexer.l", [(60, 250)], ["C06", "C15", "C01"], 8),
+    ("src/StatementBuilder.cpp", None, ["C04", "C08", "C01"], 12),
+    ("src/ExpressionBuilder.cpp", [(120, 620), (700, 980)], ["C16", "C04", "C01"], 12),
+    ("src/type.cpp", None, ["C20", "C08", "C04"], 10),
+    ("src/symbols.cpp", None, ["C08", "C04", "C16"], 8),
+    ("src/xmlreader.cpp", [(60, 440)], ["C06", "C04", "C01"], 12),
+    ("src/expression.cpp", [(60, 700)], ["C20", "C04", "C01"], 10),
+]
+if os.environ.get("MUT_SET") == "2":
+    TARGETS = TARGETS2
+
 OPS = [
     ("rel-eq", re.compile(r"(?<![=!<>])==(?!=)"), "!="),
     ("rel-ne", re.compile(r"!=(?!=)"), "=="),
